@@ -17,16 +17,21 @@ type c13Shape struct {
 	Name    string `json:"name"`
 	N       int    `json:"n"`        // entries created
 	NameLen int    `json:"name_len"` // 1 -> short names, else padded to this length
-	Holes   string `json:"holes"`    // "", "3,4" (remove the 3rd and 4th), "alt" (every other)
+	Holes   string `json:"holes"`    // "", "3,4" (remove the 3rd and 4th), "alt" (every other), "fifth" (every fifth)
+	Big     bool   `json:"big,omitempty"` // a directory of hundreds or thousands of entries: a short list of limits instead of the dense grids
 }
 
 func c13Shapes(tier string) []c13Shape {
 	s := []c13Shape{
-		{"empty", 0, 4, ""}, {"one", 1, 4, ""}, {"two", 2, 4, ""}, {"five", 5, 4, ""}, {"five-holes", 5, 4, "3,4"},
-		{"thirty", 30, 4, ""}, {"thirtyone", 31, 4, ""}, {"thirtythree", 33, 4, ""}, {"seventy-alt", 70, 4, "alt"}, {"five-long", 5, 111, ""},
+		{"empty", 0, 4, "", false}, {"one", 1, 4, "", false}, {"two", 2, 4, "", false}, {"five", 5, 4, "", false}, {"five-holes", 5, 4, "3,4", false},
+		{"thirty", 30, 4, "", false}, {"thirtyone", 31, 4, "", false}, {"thirtythree", 33, 4, "", false}, {"seventy-alt", 70, 4, "alt", false}, {"five-long", 5, 111, "", false},
 	}
+	// directories whose own block tree goes beyond the direct blocks (8 blocks = 256 entries) and beyond the
+	// indirect block (520 blocks = 16640 entries)
+	s = append(s, c13Shape{Name: "threehundred-fifth", N: 300, NameLen: 4, Holes: "fifth", Big: true})
 	if tier == "thorough" {
-		s = append(s, c13Shape{"thirtytwo", 32, 4, ""}, c13Shape{"seventy", 70, 4, ""}, c13Shape{"thirtythree-long", 33, 111, ""})
+		s = append(s, c13Shape{"thirtytwo", 32, 4, "", false}, c13Shape{"seventy", 70, 4, "", false}, c13Shape{"thirtythree-long", 33, 111, "", false},
+			c13Shape{Name: "threehundred", N: 300, NameLen: 4, Big: true}, c13Shape{Name: "seventeen-thousand-fifth", N: 17000, NameLen: 4, Holes: "fifth", Big: true})
 	}
 	return s
 }
@@ -35,6 +40,9 @@ func (s c13Shape) names() []string {
 	var out []string
 	for i := 0; i < s.N; i++ {
 		n := fmt.Sprintf("e%03d", i)
+		if s.N > 1000 {
+			n = fmt.Sprintf("e%05d", i)
+		}
 		if s.NameLen > 4 {
 			n += nameOfLen(s.NameLen-4, 'x')
 		}
@@ -49,6 +57,8 @@ func (s c13Shape) removed(i int) bool {
 		return i == 2 || i == 3
 	case "alt":
 		return i%2 == 1
+	case "fifth":
+		return i%5 == 2
 	}
 	return false
 }
@@ -62,13 +72,15 @@ type c13Res struct {
 }
 
 // one page-by-page enumeration; mutate(pageIndex, listedSoFar) is called after each page
+var c13PageCap = 80
+
 func c13Enumerate(w *World, plus bool, count, dircount, maxcount uint32, mutate func(page int, listed map[string]bool), out *c13Res) (map[string]int, []uint64, string) {
 	seen := map[string]int{}
 	var cookies []uint64
 	cookie := uint64(0)
 	for page := 0; ; page++ {
-		if page > 80 {
-			return seen, cookies, "enumeration did not end within 80 calls"
+		if page > c13PageCap {
+			return seen, cookies, fmt.Sprintf("enumeration did not end within %d calls", c13PageCap)
 		}
 		var op fsx.Op
 		if plus {
@@ -112,6 +124,13 @@ func c13Job(raw json.RawMessage) (interface{}, error) {
 	json.Unmarshal(raw, &s)
 	out := &c13Res{Pages: map[string]int64{}}
 	base := cachedMkfs(3000)
+	c13PageCap = 80
+	if s.Big {
+		c13PageCap = s.N + 10 // (every call returns at least one entry)
+		if s.N > 1000 {
+			base = cachedMkfs(8000)
+		}
+	}
 	viol := func(sig, detail string) {
 		if len(out.Viols) < 20 {
 			out.Viols = append(out.Viols, &report.Violation{Property: "C13", Sig: sig, Detail: fmt.Sprintf("directory shape %s (%d entries, holes %q, name length %d)\n%s", s.Name, s.N, s.Holes, s.NameLen, detail),
@@ -195,6 +214,21 @@ func c13Job(raw json.RawMessage) (interface{}, error) {
 			lims = append(lims, lim{true, 0, d, m}, lim{true, 0, uint32(m), d})
 		}
 	}
+	if s.Big {
+		lims = nil
+		for _, c := range []uint32{100, 512, 4096, 8192, 1 << 20, 1<<32 - 1} {
+			if s.N > 1000 && c < 8192 {
+				continue
+			}
+			lims = append(lims, lim{false, c, 0, 0})
+		}
+		for _, dm := range [][2]uint32{{1 << 20, 4096}, {512, 1 << 20}, {8192, 32768}, {65536, 65536}, {1 << 20, 1 << 20}} {
+			if s.N > 1000 && dm[0] < 8192 {
+				continue
+			}
+			lims = append(lims, lim{true, 0, dm[0], dm[1]})
+		}
+	}
 	var multi []lim // limits that give 2..12 pages, for the mutation tests
 	res := vrt.Run(vrt.Config{Horizon: 200_000_000}, func() {
 		w, present := build()
@@ -227,11 +261,23 @@ func c13Job(raw json.RawMessage) (interface{}, error) {
 			cs = append(cs, c)
 		}
 		sort.Slice(cs, func(i, j int) bool { return cs[i] < cs[j] })
+		if s.Big && len(cs) > 60 {
+			// (a listing of the rest of a big directory per cookie: the first and last three and every n-th in between)
+			var pick []uint64
+			step := len(cs) / 40
+			for i, c := range cs {
+				if i < 3 || i >= len(cs)-3 || i%step == 0 {
+					pick = append(pick, c)
+				}
+			}
+			cs = pick
+		}
 		for _, c := range cs {
 			for _, plus := range []bool{false, true} {
-				op := fsx.Op{K: "READDIR", H: "root/dir", Cookie: c, Cnt: 1 << 20}
+				// (limits large enough for the rest of the directory in one reply)
+				op := fsx.Op{K: "READDIR", H: "root/dir", Cookie: c, Cnt: 1 << 30}
 				if plus {
-					op = fsx.Op{K: "READDIRPLUS", H: "root/dir", Cookie: c, DirCnt: 1 << 20, MaxCnt: 1 << 20}
+					op = fsx.Op{K: "READDIRPLUS", H: "root/dir", Cookie: c, DirCnt: 1 << 30, MaxCnt: 1 << 30}
 				}
 				r, _, mis := w.Do(op)
 				out.Calls++
@@ -338,7 +384,7 @@ func init() {
 
 func C13(r *report.Report, tier string) {
 	shapes := c13Shapes(tier)
-	r.Rule = "per directory shape (empty, 1/2/5 entries, freed slots in the middle, 30/31/32/33/70 entries around the block boundary, every other entry removed, names of 4 and 111 bytes): READDIR with every count from 0 to 64+13*(24+len) plus 4096 and 2^32-1, READDIRPLUS over a dircount x maxcount grid (step 1 near the reply-size thresholds, step 8 elsewhere, plus extremes); for each: the client loop passing back the last cookie until end-of-directory (hard cap of 80 calls); every call returns an entry or eof and makes progress; every entry present throughout is returned exactly once, nothing twice, nothing that never existed; file ids / handles / attributes equal LOOKUP+GETATTR (checked by the reference model); every cookie ever returned is passed back once more; for limits that yield 2..12 pages, at every page boundary one of {add a name, remove a listed name, remove a not-yet-listed name}"
+	r.Rule = "per directory shape (empty, 1/2/5 entries, freed slots in the middle, 30/31/32/33/70 entries around the block boundary, every other entry removed, names of 4 and 111 bytes): READDIR with every count from 0 to 64+13*(24+len) plus 4096 and 2^32-1, READDIRPLUS over a dircount x maxcount grid (step 1 near the reply-size thresholds, step 8 elsewhere, plus extremes); for each: the client loop passing back the last cookie until end-of-directory (hard cap of 80 calls); every call returns an entry or eof and makes progress; every entry present throughout is returned exactly once, nothing twice, nothing that never existed; file ids / handles / attributes equal LOOKUP+GETATTR (checked by the reference model); every cookie ever returned is passed back once more; for limits that yield 2..12 pages, at every page boundary one of {add a name, remove a listed name, remove a not-yet-listed name}; plus directories whose own block tree passes the direct blocks (300 entries, every fifth removed; thorough: also 300 without holes and 17000 entries = into the double-indirect tree) with a short list of limits (page cap = number of entries)"
 	var jobs []interface{}
 	for _, s := range shapes {
 		jobs = append(jobs, s)
